@@ -77,6 +77,20 @@ def confirm(pid, result):
     root = common.scratch_root()
     conf = {"reproduced": False, "note": "", "replay_path": ""}
     failing = result.failed[0] if result.failed else None
+    if getattr(result, "macro_diagnostic", ""):
+        # the harness crate itself must fail to build natively with the same macro diagnostic
+        env = common.base_env(); env["RUSTFLAGS"] = "--cfg gecs_verif"
+        cmd = ["cargo", "build", "--offline", "--lib", "--target-dir", os.path.join(root, "target_replay")]
+        if job.features:
+            cmd += ["--features", ",".join(job.features)]
+        with _NATIVE_LOCK:
+            p = subprocess.run(cmd, cwd=common.KANI_CRATE, env=env, capture_output=True, text=True, timeout=1800)
+        same = p.returncode != 0 and result.macro_diagnostic[:60] in p.stderr
+        conf["reproduced"] = same
+        conf["note"] = "native build of the corpus: " + ("fails with the same macro diagnostic" if same else "does not show the diagnostic")
+        conf["kind"] = "macro-rejects-valid-program"
+        conf["replay_path"] = _write_replay(pid, job, None, None, {"native_build": {"exit": p.returncode, "message": result.macro_diagnostic}}, result.reason)
+        return conf
     if failing is None:
         # e.g. an expected clean panic that was not raised: there is no trace to replay; the
         # verdict itself (solver: the panic is unreachable for every input) is the evidence.
